@@ -160,6 +160,40 @@ func runC11(c *ShardCtx) {
 			runGrammar(c, g, fam)
 		}
 	}
+	// histories: every ordered pair of calls over {inputs} x {default, Recover(false), file name,
+	// option lists of a wrapper} x {no fault, an action returns an error, an action panics}: what
+	// a call did with its options, its errors or a panic must not change the next call
+	for hv := 0; hv < 2; hv++ {
+		idx++
+		if !c.Mine(idx) {
+			continue
+		}
+		g := &peg.Grammar{Rules: []*peg.Rule{
+			{Name: "S", Expr: peg.Action(0, peg.Seq(peg.Label("v", peg.Plus(peg.Choice(peg.Ref("A"), peg.Ref("B")))), peg.Not(peg.Any())))},
+			{Name: "A", Display: "the A", Expr: peg.Action(0, peg.Lit("a"))}, {Name: "B", Expr: peg.Action(0, peg.Seq(peg.Not(peg.Lit("a")), peg.Cls(false, false, "b", "c")))}}}
+		peg.Renumber(g, 1)
+		peg.AssignArgs(g)
+		gen := core.Gen{Optimize: hv == 1}
+		text := peg.Print(g, nil)
+		b := buildOrCount(c, text, gen)
+		if b == nil {
+			continue
+		}
+		c.Res.Grammars++
+		plain, errA, boomB := map[int]*rtapi.Block{}, map[int]*rtapi.Block{}, map[int]*rtapi.Block{}
+		for _, blk := range g.Blocks() {
+			plain[blk.ID], errA[blk.ID], boomB[blk.ID] = &rtapi.Block{}, &rtapi.Block{}, &rtapi.Block{}
+		}
+		errA[2].Err = "e2"
+		boomB[3].Err, boomB[3].Panic = "boom", 1
+		var calls []hcall
+		for _, in := range []string{"ab", "aa", "ca", "x", ""} {
+			for _, o := range []rtapi.RunOpts{{MaxExpr: 600}, {MaxExpr: 600, NoRecover: true}, {MaxExpr: 600, Filename: "f.txt"}, {MaxExpr: 600, NoRecover: true, Doubled: true}, {MaxExpr: 600, Shadowed: true}} {
+				calls = append(calls, hcall{in, o, plain, ""}, hcall{in, o, errA, ", A's action returns an error"}, hcall{in, o, boomB, ", B's action panics"})
+			}
+		}
+		historyPairs(c, b, text, gen, calls)
+	}
 	// cross family (cross.go): every construct x every flag set, every block in turn failing
 	{
 		if !runCross(c, &idx, &crossSpec{maxSize: 3, gens: gens16, inputs: crossInputsSmall, opts: []rtapi.RunOpts{{MaxExpr: 600, Filename: "f.txt"}, {MaxExpr: 600, NoRecover: true}},
